@@ -117,9 +117,9 @@ type rrep struct {
 	aff   ref.Point // the affine Edwards point P+T of this representative
 }
 
-func wrap(p *curve.EdwardsPoint) *curve.RistrettoPoint { return curve.VerifRistrettoFromEdwards(p) }
+func wrap(p *curve.EdwardsPoint) *curve.RistrettoPoint { return edpts.WrapRistretto(p) }
 
-func inner(r *curve.RistrettoPoint) *curve.EdwardsPoint { return curve.VerifEdwardsFromRistretto(r) }
+func inner(r *curve.RistrettoPoint) *curve.EdwardsPoint { return edpts.InnerOfRistretto(r) }
 
 // isElem: the internal representative is a well-formed curve point in the coset of want.
 func isElem(r *curve.RistrettoPoint, want ref.Point) bool {
@@ -153,6 +153,9 @@ func (o oneByteReader) Read(p []byte) (int, error) {
 }
 
 func run(c *mc.Ctx) {
+	if edpts.Reduced {
+		c.Cap("coordinate hooks of package curve do not compile against this tree: points are built/read through the public API only (no well-formedness test of internal representations, only the canonical coset representative)")
+	}
 	tor := ref.Torsion()
 	lam := edpts.Lambdas(c.Seed, 2)
 
@@ -576,7 +579,7 @@ func cosetSpace(c *mc.Ctx, els []*element, tor [8]ref.Point, lam []*big.Int) []*
 		id := fmt.Sprintf("[%s]B + T%d as %s", e.s.Text(16), r.coset, r.kind)
 		cas := map[string]string{"scalar": e.s.Text(16), "coset": fmt.Sprint(r.coset), "representation": r.kind}
 		w.Eval(fmt.Sprintf("representatives/T%d", r.coset), r.coset != 0 || !r.z1)
-		if q, ok := edpts.Affine(inner(r.r)); !ok || !q.Equal(r.aff) {
+		if q, ok := edpts.Affine(inner(r.r)); !ok || !(q.Equal(r.aff) || (edpts.Reduced && ref.RistrettoEqual(q, r.aff))) {
 			w.Fail("representation/"+r.kind, fmt.Sprintf("%s: library-built representative is not the intended point", id), cas)
 			return
 		}
